@@ -2,6 +2,7 @@
    Only statements here; proofs are in Proofs/PreParse*.v. *)
 Require Import BB.Base.Str BB.Gen.TablesParser BB.Model.PreParse BB.Model.PreParseSpec.
 Require Import BB.Proofs.PreParseNF BB.Proofs.PreParseInvariance BB.Proofs.PreParseScale BB.Proofs.PreParseTrailing.
+Require Import BB.Proofs.PlainLineConvert BB.Proofs.PreParseStair.
 
 (* For every text over the alphabet: the first content line is at depth 0 and, for every two
    consecutive non-blank lines with indentation widths w, w' and depths d, d' (depth = number of
@@ -77,3 +78,23 @@ e
 f
 ").
 Proof. reflexivity. Qed.
+
+(* A staircase of any height: lines with strictly growing indentation - any number of them, any widths, each line without tab or line
+   break and not blank at its ends - are pre-parsed into as many nested blocks: an indent marker line before every line after the
+   first, all the dedent marker lines at the end.  There is no depth at which nesting stops and no width beyond which indentation is
+   read differently (Proofs/PreParseStair.v). *)
+Theorem C12_staircase_of_any_height : forall size r0 rows,
+  fst r0 = 0%nat -> growing 0 rows -> Forall (fun r => line_ok (snd r)) (r0 :: rows) ->
+  pre_parse size (stair_text (r0 :: rows)) = Some (stair_out (r0 :: rows)).
+Proof. exact pre_parse_stair. Qed.
+Print Assumptions C12_staircase_of_any_height.
+
+Example C12_staircase_example :
+  let rows := [(0%nat, of_string "a"); (1%nat, of_string "b c"); (9%nat, of_string "d"); (50%nat, of_string "e")] in
+  growing 0 (tl rows) /\ Forall (fun r => line_ok (snd r)) rows
+  /\ pre_parse 2 (stair_text rows) = Some (of_string "a" ++ [NL; INDENT_C; NL] ++ of_string "b c" ++ [NL; INDENT_C; NL] ++ of_string "d" ++ [NL; INDENT_C; NL] ++ of_string "e"
+                                         ++ [NL; DEDENT_C; NL; DEDENT_C; NL; DEDENT_C; NL]).
+Proof.
+  split; [cbn; repeat split; lia|]. split; [|vm_compute; reflexivity].
+  repeat constructor; try (unfold TAB, NL; cbn; discriminate); cbn; try reflexivity.
+Qed.
